@@ -127,6 +127,7 @@ fn one(ctx: &mut Ctx, c: &DayCase) {
 }
 
 pub fn c09(ctx: &mut Ctx, tier: &str, r: &mut Rng, js: &[Value], reqs: &[String], replay_only: bool) {
+    ctx.shrinker = Some(one);
     for c in cases_from(js, reqs) {
         if matches!(c.p.extreme_latitude_method, ExtremeLatitudeMethod::NearestGoodDayAllPrayersAlways | ExtremeLatitudeMethod::NearestGoodDayFajrIshaInvalid)
             && f64::from(c.l.coords.latitude).abs() <= 64.
